@@ -21,6 +21,8 @@ package ast
 //@   props C13 C17
 //@   nosafety
 //@   modifies *
+//@   at call ast.quoteString#0 assert[key-printed-as-string-literal;C17] same(arg0, k)
+//@   at call fmt.Sprintf#* forbid[no-verbatim-key-formatting;C17] false
 //@ func (*MapLiteralNode).Children
 //@   props C13
 //@   nosafety
@@ -31,3 +33,40 @@ package ast
 //@   modifies *
 //@   loop 0
 //@     bag keys
+
+// ---------------------------------------------------------------------------
+// C17 (printer side): the text printed for an operator expression never relies
+// on operator precedence - an operand that is itself an operator expression is
+// printed in parentheses - and map-literal keys are printed as string literals.
+//@ pred isOperator(n Node) = typeis(n, *NotNode) || typeis(n, *NegateNode) || typeis(n, *TernNode) || typeis(n, *MulNode) || typeis(n, *DivNode) || typeis(n, *ModNode) || typeis(n, *AddNode) || typeis(n, *SubNode) || typeis(n, *EqNode) || typeis(n, *NotEqNode) || typeis(n, *GtNode) || typeis(n, *GteNode) || typeis(n, *LtNode) || typeis(n, *LteNode) || typeis(n, *OrNode) || typeis(n, *AndNode) || typeis(n, *ElvisNode)
+//@ func operandString
+//@   props C17
+//@   nosafety
+//@   stringsexact
+//@   modifies *
+//@   ensures[operator-operands-are-parenthesised;C17] isOperator(n) ==> len(result) >= 2 && result[0] == '(' && result[len(result)-1] == ')'
+//@ func (*BinaryOpNode).String
+//@   props C17
+//@   nosafety
+//@   modifies *
+//@   at call ast.Node.String#* forbid[operands-printed-through-operandString;C17] false
+//@ func (*NotNode).String
+//@   props C17
+//@   nosafety
+//@   modifies *
+//@   at call ast.Node.String#* forbid[operands-printed-through-operandString;C17] false
+//@ func (*NegateNode).String
+//@   props C17
+//@   nosafety
+//@   modifies *
+//@   at call ast.Node.String#* forbid[operands-printed-through-operandString;C17] false
+//@ func (*TernNode).String
+//@   props C17
+//@   nosafety
+//@   modifies *
+//@   at call ast.Node.String#* forbid[operands-printed-through-operandString;C17] false
+//@ func (*StringNode).String
+//@   props C17
+//@   nosafety
+//@   pure
+//@   ensures[prints-its-source-form;C17] result == s.Quoted
